@@ -5,13 +5,32 @@ From Coq Require Import List String Bool Arith ZArith.
 From Helm Require Import Common.Strs Values.Tree Values.Merge Values.Coalesce Values.Strvals Values.Options.
 Import ListNotations.
 
-Inductive res := ROk (v : val) | RErr.
+(* RErrD: an error, with the destination as the call left it (strvals entry points only) *)
+Inductive res := ROk (v : val) | RErr | RErrD (v : val).
 
 Definition res_eqb (a b : res) : bool :=
   match a, b with
   | ROk x, ROk y => val_equiv_b x y
   | RErr, RErr => true
+  | RErr, RErrD _ => true
   | _, _ => false
+  end.
+
+Definition opt_equiv (a b : option val) : bool :=
+  match a, b with
+  | Some x, Some y => val_equiv_b x y
+  | None, None => true
+  | _, _ => false
+  end.
+
+(* the frame on an error: every top-level key the model left as it was must be as it was in the
+   real destination too (StrvalsProofs.parse_frame is about exactly these keys) *)
+Definition frame_ok (dest d' : vmap) (after : val) : bool :=
+  match after with
+  | VMap a =>
+      forallb (fun k => if opt_equiv (mget k d') (mget k dest) then opt_equiv (mget k a) (mget k dest) else true)
+              (map fst dest ++ map fst d' ++ map fst a)%list
+  | _ => false
   end.
 
 Inductive capi := ACoalesceValues | AMergeValues | AToRenderValues.
@@ -53,7 +72,26 @@ Definition observed (c : case) : res :=
   | CFiles _ o | CMergeMaps _ _ o | CCoalesce _ _ _ o | CTables _ _ _ o | COpts _ o | CParse _ _ _ _ _ o => o
   end.
 
-Definition case_ok (c : case) : bool := res_eqb (model c) (observed c).
+Definition parse_model (fn : pfn) (s : string) (dest : vmap) (files : list (string * string))
+                       (jdec : list (nat * (val * nat))) : pres :=
+  match fn with
+  | PInto => parse_into s dest
+  | PIntoString => parse_into_string s dest
+  | PJson => parse_json jdec s dest
+  | PLiteral => parse_literal_into s dest
+  | PFile => parse_into_file files s dest
+  end.
+
+Definition case_ok (c : case) : bool :=
+  match c with
+  | CParse fn s dest files jdec obs =>
+      match parse_model fn s dest files jdec, obs with
+      | POk d, ROk v => val_equiv_b (VMap d) v
+      | PErr d', RErrD after => frame_ok dest d' after
+      | _, _ => false
+      end
+  | _ => res_eqb (model c) (observed c)
+  end.
 
 Fixpoint mismatches_from (i : nat) (cs : list case) : list nat :=
   match cs with
